@@ -75,7 +75,7 @@ func fuzzChild(args []string) {
 	// address-space cap (`ulimit -v`): a runaway allocation kills this process, not the machine
 	lim := uint64(12) << 30
 	syscall.Setrlimit(syscall.RLIMIT_AS, &syscall.Rlimit{Cur: lim, Max: lim})
-	debug.SetMaxStack(256 << 20)
+	debug.SetMaxStack(64 << 20)
 	debug.SetMemoryLimit(3 << 30)
 	go func() { // heap watchdog: report instead of thrashing
 		var ms runtime.MemStats
@@ -279,8 +279,10 @@ func fuzzNote(s string) {
 var (
 	fuzzPool    chan *fuzzProc
 	fuzzMu      sync.Mutex
-	fuzzTimeout = 90 * time.Second
+	fuzzTimeout = 30 * time.Second
 	fuzzSlow    int
+	fuzzMaxEl   time.Duration
+	fuzzMaxIn   string
 )
 
 func spawnFuzzChild() *fuzzProc {
@@ -307,6 +309,11 @@ func setupFuzz() {
 			fuzzTimeout = time.Duration(n) * time.Second
 		}
 	}
+	for i, a := range os.Args {
+		if (a == "-tier" || a == "--tier") && i+1 < len(os.Args) && os.Args[i+1] == "thorough" && os.Getenv("VERIF_FUZZ_TIMEOUT") == "" {
+			fuzzTimeout = 120 * time.Second
+		}
+	}
 	n := fuzzWorkers()
 	fuzzPool = make(chan *fuzzProc, n)
 	for i := 0; i < n; i++ {
@@ -322,6 +329,9 @@ func teardownFuzz() {
 		default:
 			if fuzzNotes > 40 {
 				note(fmt.Sprintf("%d further findings not listed", fuzzNotes-40))
+			}
+			if fuzzMaxIn != "" {
+				note(fmt.Sprintf("slowest answered input: %.1f s (watchdog %s): %s", fuzzMaxEl.Seconds(), fuzzTimeout, fuzzMaxIn))
 			}
 			if fuzzSlow > 0 {
 				note(fmt.Sprintf("%d inputs took more than 5 s", fuzzSlow))
@@ -374,11 +384,12 @@ func shrinkFuzz(in string) []string {
 	return out
 }
 
-// fatalSite: for a goroutine dump written by a dying / interrupted child (stack exhaustion, SIGQUIT
-// of a hung child): the package that owns most frames of the first goroutine that is inside
-// non-runtime, non-harness code.  Function-level keys are not stable for recursion cycles (the
-// runtime elides the middle of the stack), the package is.
-func fatalSite(stderr string) string {
+// fatalSite: for a goroutine dump written by a dying / interrupted child, the package in which the
+// first goroutine that is inside non-runtime, non-harness code was: for a hung child (SIGQUIT) the
+// package of its innermost frame (where it spins), for a stack exhaustion the package that owns
+// most of the printed frames (the recursion).  Function-level keys are not stable here (the
+// runtime elides the middle of a deep stack, the innermost function of a spinning parser varies).
+func fatalSite(stderr string, innermost bool) string {
 	blocks := strings.Split(stderr, "\n\ngoroutine ")
 	for _, blk := range blocks {
 		counts := map[string]int{}
@@ -391,6 +402,9 @@ func fatalSite(stderr string) string {
 			// package path = up to the first dot after the last slash
 			sl := strings.LastIndex(fn, "/")
 			if d := strings.Index(fn[sl+1:], "."); d > 0 {
+				if innermost {
+					return fn[:sl+1+d]
+				}
 				counts[fn[:sl+1+d]]++
 			}
 		}
@@ -451,11 +465,17 @@ func execFuzz(in string) Result {
 		outcome = 2
 	}
 	el := time.Since(t0)
+	fuzzMu.Lock()
 	if el > 5*time.Second {
-		fuzzMu.Lock()
 		fuzzSlow++
-		fuzzMu.Unlock()
 	}
+	if el > fuzzMaxEl && outcome == 0 {
+		fuzzMaxEl, fuzzMaxIn = el, in
+		if len(fuzzMaxIn) > 200 {
+			fuzzMaxIn = fuzzMaxIn[:200] + "..."
+		}
+	}
+	fuzzMu.Unlock()
 	describe := func() string {
 		if len(data) <= 4096 {
 			return fmt.Sprintf("t=%s hex=%x", target, data)
@@ -470,13 +490,13 @@ func execFuzz(in string) Result {
 		go func() { p.cmd.Wait(); close(done) }()
 		select {
 		case <-done:
-		case <-time.After(10 * time.Second):
+		case <-time.After(5 * time.Second):
 			p.cmd.Process.Kill()
 			<-done
 		}
 		p.in.Close()
 		site := target
-		if fs := fatalSite(p.stderr.String()); fs != "" {
+		if fs := fatalSite(p.stderr.String(), true); fs != "" {
 			site = fs
 		}
 		p = spawnFuzzChild()
@@ -507,7 +527,7 @@ func execFuzz(in string) Result {
 			kind = "fatal-error"
 		}
 		site := target
-		if fs := fatalSite(se); fs != "" {
+		if fs := fatalSite(se, false); fs != "" {
 			site = fs
 		}
 		tags = append(tags, "died="+kind+"@"+site)
